@@ -56,6 +56,9 @@ TARGETS = [
     ("src_fn_Output_cat", "src/raw/mod.rs", "Output", "cat", ("fn",), None, False, None),
     ("src_fn_Output_sub", "src/raw/mod.rs", "Output", "sub", ("fn",), None, False, None),
     ("src_fn_CheckSummer_masked", "src/raw/crc32.rs", "CheckSummer", "masked", ("fn",), None, False, None),
+    ("src_fn_crc32c_slice16", "src/raw/crc32.rs", None, "crc32c_slice16", ("fn",), None, False, None),
+    ("src_fn_CheckSummer_new", "src/raw/crc32.rs", "CheckSummer", "new", ("fn",), None, False, None),
+    ("src_fn_CheckSummer_update", "src/raw/crc32.rs", "CheckSummer", "update", ("fn",), None, False, None),
     ("src_fn_common_idx", "src/raw/node.rs", None, "common_idx", ("fn",), None, False, None),
     ("src_fn_common_input", "src/raw/node.rs", None, "common_input", ("fn",), None, False, None),
     ("src_fn_PackSizes_new", "src/raw/node.rs", "PackSizes", "new", ("fn",), None, False, None),
